@@ -930,7 +930,11 @@ def make(kind, seed, world, ip, tap, reach):
                 sel = p['selectors'][-1]        # (the widest one: a pyikev2 initiator puts the selector of the triggering packet in front)
                 n = len(sel['saddr'])
                 a, z = int.from_bytes(sel['saddr'], 'big'), int.from_bytes(sel['eaddr'], 'big')
-                how = r.choice(['addr', 'addr', 'port', 'both'])
+                how = r.choice(['addr', 'addr', 'port', 'both', 'proto'])
+                if how == 'proto' and sel['proto'] == 0 and not any(d.endswith('.proto') for d in done):
+                    # one selector names a protocol, the other stays "any": a packet has to be admitted by both
+                    sel['proto'] = r.choice([6, 17])
+                    done.append(name + '.proto')
                 if how in ('addr', 'both') and z - a >= 15:
                     span = r.choice([1, 2, 3, 5, 6, 9, 12])
                     if r.random() < 0.6:
